@@ -30,6 +30,7 @@ fn docs(rng: &mut Rng, n: usize) -> Vec<J> {
         J::Arr(vec![o(vec![("a", J::str("x")), ("b", J::int(1))]), o(vec![("a", J::str("xy")), ("b", J::float(1.5)), ("c", J::Null)]), o(vec![("a", J::Bool(true))]), o(vec![("a", o(vec![("b", o(vec![("c", J::int(1))]))]))]), o(vec![("x y", J::int(1)), ("xy", J::int(2))]), o(vec![("a", J::str("a b"))]), o(vec![("a", J::str("ab"))]), o(vec![("xy", J::int(1))]), J::Arr(vec![o(vec![("a", J::int(1))])])]),
         o(vec![("a", o(vec![("b", J::Arr(vec![J::int(0), J::int(2)])), ("a", o(vec![("b", J::int(2))]))])), ("b", J::Arr(vec![o(vec![("a", J::Arr(vec![J::int(1), J::int(5)]))])]))]),
     ];
+    d.extend(gen::boundary_docs().into_iter().filter(|x| x.node_count() < 700).take(24));
     let mut cfg = gen::DocCfg::default();
     cfg.keys.push("xy".into());
     cfg.strings.push("a b".into());
@@ -69,6 +70,7 @@ pub fn run(ctx: &Ctx) -> Result<Evidence, String> {
     let mut rng = Rng::stream(ctx.seed, 13);
     let docs: Vec<Doc> = docs(&mut rng, ctx.tier.pick(40, 400)).iter().map(Doc::new).collect();
     let mut asts: Vec<Query> = curated().iter().map(|t| analyze(t).ast.unwrap_or_else(|| panic!("curated C13 query does not parse: {}", t))).collect();
+    asts.extend(gen::boundary_queries().iter().step_by(3).filter_map(|t| analyze(t).ast));
     let n_curated = asts.len();
     let mut qcfg = gen::QueryCfg::default();
     qcfg.names = ["a", "b", "c", "k", "x y", "xy", "_1", "\u{e9}"].iter().map(|s| s.to_string()).collect();
